@@ -1317,6 +1317,28 @@ func SliceAny(v ssa.Value, pred func(ssa.Value) bool) bool {
 			return walk(x.X)
 		case *ssa.Extract:
 			return walk(x.Tuple)
+		case *ssa.TypeAssert:
+			return walk(x.X)
+		case *ssa.Alloc:
+			// a local array / struct (the backing array of a variadic argument): what is stored into it or its elements
+			if x.Referrers() != nil {
+				for _, r := range *x.Referrers() {
+					switch y := r.(type) {
+					case *ssa.Store:
+						if y.Addr == ssa.Value(x) && walk(y.Val) {
+							return true
+						}
+					case *ssa.IndexAddr, *ssa.FieldAddr:
+						if yr := y.(ssa.Value).Referrers(); yr != nil {
+							for _, r2 := range *yr {
+								if st, ok := r2.(*ssa.Store); ok && st.Addr == y.(ssa.Value) && walk(st.Val) {
+									return true
+								}
+							}
+						}
+					}
+				}
+			}
 		}
 		return false
 	}
